@@ -26,11 +26,8 @@ M = [
     ("c05_for_step_first", "C05", RT, 'self.add_op(Sequence(f"seq", flatten_list(items[4]) + [items[3]])),', 'self.add_op(Sequence(f"seq", [items[3]] + flatten_list(items[4]))),'),
     ("c05_else_dropped_when_nested", "C05", RT, '            else_seq = self.chk_hybrid_dep(\n                self.add_op(Sequence(f"seq_else", flatten_list(items[4])))\n            )', '            else_seq = self.chk_hybrid_dep(\n                self.add_op(Sequence(f"seq_else", flatten_list(items[4])[:3]))\n            )'),
     ("c06_postfix_order", "C06", RT, "        if hybrid.seq_order == HybridSeqOrder.SET_VAL_THEN_EXEC:\n            h_seq = [set_tmp, hybrid]", "        if hybrid.seq_order == HybridSeqOrder.SET_VAL_THEN_EXEC:\n            h_seq = [hybrid, set_tmp] if hybrid.value_type.bit_width == 64 else [set_tmp, hybrid]"),
-    ("c06_loop_hybrid_order", "C06", RT, "            HybridSeqOrder.SEQ_THEN_HYB,\n        )", "            HybridSeqOrder.HYB_THEN_SEQ,\n        )"),
-    ("c07_pair_max", "C07", "rzilcompiler/Transformer/Pures/Register.py", "            num = min(num, int(n)) if num else int(n)", "            num = max(num, int(n)) if num else int(n)"),
     ("c07_imm_u_signed", "C07", VT, '    if re.search(r"[rRsS]", imm_char):', '    if re.search(r"[rRsSm]", imm_char):'),
     ("c07_alias64", "C07", "rzilcompiler/HexagonExtensions.py", '        if alias == "upcycle" or alias == "pktcount" or alias == "utimer":', '        if alias == "upcycle" or alias == "pktcount":'),
-    ("c08_arg_cast_skipped", "C08", RT, "            if arg.value_type == p_type:\n                continue\n", "            if arg.value_type == p_type or arg.value_type.bit_width == p_type.bit_width:\n                continue\n"),
     ("c09_fold_sub_swapped", "C09", RT, '            case "-":\n                result = val_a - val_b', '            case "-":\n                result = val_a - val_b if val_a >= val_b else val_b - val_a'),
     ("c10_seqn_count", "C10", "rzilcompiler/Transformer/Effects/Sequence.py", "        return f'SEQN({len(self.effects)}, ", "        return f'SEQN({len(self.effects) if len(self.effects) != 7 else 6}, "),
     ("c11_getter_case", "C11", "rzilcompiler/Compiler.py", '            name = f"hex_il_op_{insn_name.lower()}"', '            name = f"hex_il_op_{insn_name.lower()[:18]}"'),
